@@ -68,6 +68,8 @@ pub struct World {
     pub tolerate_empty_clients: bool,
     /// storage-call faults for the next request (S5)
     pub next_faults: Vec<crate::world::StorageFault>,
+    /// SQLite: the servers own concrete `SqliteStorage` objects (no wrapper storage)
+    pub raw_inst: bool,
     /// ids to probe in projections besides those the model knows (e.g. an id whose response was lost)
     pub extra_ids: std::collections::BTreeSet<Id>,
     /// further server instances on the same storage (SQLite: own storage object on the same
@@ -103,7 +105,11 @@ impl World {
         allow: Option<HashSet<Uuid>>,
     ) -> anyhow::Result<World> {
         let store = Store::new(backend, page_size)?;
-        let inst = Instance::new(store.raw.clone(), cfg, allow.clone(), 0);
+        let raw_inst = store.dir.is_some() && crate::world::raw_for(seed);
+        let inst = match (&store.dir, raw_inst) {
+            (Some(d), true) => Instance::new_sqlite_raw(d, cfg, allow.clone(), 0)?,
+            _ => Instance::new(store.raw.clone(), cfg, allow.clone(), 0),
+        };
         let app = match entry {
             Entry::Http => Some(HttpApp::new(&inst.web)),
             Entry::Lib => None,
@@ -131,6 +137,7 @@ impl World {
             last_raw: None,
             tolerate_empty_clients: false,
             next_faults: Vec::new(),
+            raw_inst,
             extra_ids: Default::default(),
             mono: BTreeMap::new(),
             last_upload: None,
@@ -152,7 +159,8 @@ impl World {
     /// A world on an existing data directory (SQLite), continuing from a given model state.
     pub fn attach(seed: u64, dir: &std::path::Path, entry: Entry, n_clients: u8, cfg: Cfg, model: Model) -> anyhow::Result<World> {
         let store = Store::open_dir(dir)?;
-        let inst = Instance::new(store.raw.clone(), cfg, None, 0);
+        let raw_inst = crate::world::raw_for(seed);
+        let inst = if raw_inst { Instance::new_sqlite_raw(dir, cfg, None, 0)? } else { Instance::new(store.raw.clone(), cfg, None, 0) };
         let app = match entry {
             Entry::Http => Some(HttpApp::new(&inst.web)),
             Entry::Lib => None,
@@ -180,6 +188,7 @@ impl World {
             last_raw: None,
             tolerate_empty_clients: false,
             next_faults: Vec::new(),
+            raw_inst,
             extra_ids: Default::default(),
             mono: BTreeMap::new(),
             last_upload: None,
@@ -203,7 +212,11 @@ impl World {
             (Some(d), i) if i > 0 => std::sync::Arc::new(taskchampion_sync_server_storage_sqlite::SqliteStorage::new(d)?),
             _ => self.store.raw.clone(),
         };
-        let inst = Instance::new(raw, cfg, allow, self.skews.get(idx).copied().unwrap_or(0));
+        let skew = self.skews.get(idx).copied().unwrap_or(0);
+        let inst = match (&self.store.dir, self.raw_inst) {
+            (Some(d), true) => Instance::new_sqlite_raw(d, cfg, allow, skew)?,
+            _ => Instance::new(raw, cfg, allow, skew),
+        };
         let app = if self.entry == Entry::Http { Some(HttpApp::new(&inst.web)) } else { None };
         Ok((inst, app))
     }
@@ -259,6 +272,7 @@ impl World {
     }
 
     pub fn restart(&mut self, allow: Option<HashSet<Uuid>>, cfg: Cfg) -> anyhow::Result<()> {
+        crate::vfs::foreign_read_release_now();
         self.app = None;
         self.others.clear();
         // a restarted server is a new process: in some runs a fresh child process opens the directory
@@ -433,6 +447,7 @@ impl World {
 
     /// Execute one symbolic operation with all per-step oracles.
     pub fn step(&mut self, op: &Op, out: &mut RunOut) -> Option<StepOut> {
+        crate::vfs::foreign_read_release_due();
         match op {
             Op::Advance { us } => {
                 let lim = 200 * 365 * DAY_US;
@@ -440,6 +455,14 @@ impl World {
                 sched::set_now_us(t);
                 self.digest.add_u64(t as u64);
                 out.bump(if *us < 0 { "clock.jump_back" } else { "clock.jump_forward" });
+                return None;
+            }
+            Op::ForeignRead { hold_us } => {
+                if let Some(d) = &self.store.dir {
+                    if crate::vfs::foreign_read_hold(&d.join(crate::world::DB_FILE), *hold_us).is_ok() {
+                        out.bump("fault.foreign_reader_holds_snapshot");
+                    }
+                }
                 return None;
             }
             Op::ForeignLock { hold_us } => {
@@ -1053,7 +1076,8 @@ pub fn gen_ops(r: &mut Rng, p: &GenParams, n_clients: u8, cfg: &Cfg, page: u32) 
     let mut pay = |r: &mut Rng, small: bool| -> Pay {
         tag += 1;
         let len = if small { r.range(1, 40) as u32 } else { ops::gen_len(r, page, p.max_payload) };
-        Pay { class: r.below(ops::N_CLASSES as u64) as u8, len, tag }
+        let class = if len >= 32 && r.chance(5, 100) { *r.pick(&[ops::CLASS_ZLIB, ops::CLASS_GZIP]) } else { r.below(ops::N_CLASSES as u64) as u8 };
+        Pay { class, len, tag }
     };
     let w: [u32; 8] = match p.focus {
         //           AV  GC  AS  GS  Adv Rst Seed Create
@@ -1072,7 +1096,11 @@ pub fn gen_ops(r: &mut Rng, p: &GenParams, n_clients: u8, cfg: &Cfg, page: u32) 
                 1 => r.range(4_500_000, 6_500_000),
                 _ => r.range(6_500_000, 12_000_000),
             };
-            ops.push(Op::ForeignLock { hold_us: hold });
+            if r.chance(30, 100) {
+                ops.push(Op::ForeignRead { hold_us: r.range(1_000_000, 90_000_000) });
+            } else {
+                ops.push(Op::ForeignLock { hold_us: hold });
+            }
         }
         // library callers create clients explicitly (mostly)
         if p.entry == Entry::Lib && !created[c as usize] && matches!(kind, 0..=3) && r.chance(9, 10) {
@@ -1322,6 +1350,9 @@ pub fn exec(plan: &SeqPlan) -> RunOut {
             return out;
         }
     };
+    if w.raw_inst {
+        out.bump("cfg.servers_own_concrete_sqlite_storage_no_wrapper");
+    }
     if plan.instances > 1 {
         if let Err(e) = w.set_instances(plan.instances as usize, plan.skews_us.clone()) {
             out.violations.push(viol(&["C03", "C13"], "instances.cannot_open", format!("opening {} instances on one storage failed: {e:#}", plan.instances)));
